@@ -46,6 +46,7 @@ opcodes! {
     WithArcClone = "with_arc_clone", "";
     CloneShared = "clone_shared", "";
     ReadShared = "read_shared", "";
+    CloneFrom = "clone_from", "";
     // ---- count-neutral conversions (a=slot)
     ToOffset = "to_offset", "C11";
     FromOffset = "from_offset", "C11";
